@@ -54,7 +54,7 @@ MANIFEST = dict(
 IMPORTS = ['Coq.NArith.NArith', 'Coq.ZArith.ZArith', 'Coq.Lists.List', 'SV.Fmt.VtfPixelExpr', 'SV.Fmt.VtfLayout', 'SV.Fmt.VtfSides',
            'SV.Gen.PixelCodecs_gen', 'SV.Gen.VtfLayout_gen']
 IMPORTS_CONT = ['Coq.NArith.NArith', 'Coq.ZArith.ZArith', 'Coq.Lists.List', 'Coq.Strings.String', 'Coq.Bool.Bool', 'SV.Bin.Struct',
-                'SV.Fmt.VtfContainer', 'SV.Gen.VtfContainer_gen']
+                'SV.Fmt.VtfContainer', 'SV.Fmt.VtfWholeFile', 'SV.Gen.VtfContainer_gen']
 IMPORTS_FRAME = ['Coq.Lists.List', 'Coq.Strings.String', 'Coq.Bool.Bool', 'SV.Fmt.VtfFrameSM', 'SV.Gen.VtfFrameSM_gen']
 
 # format (lower case) -> (specification of load-after-save, canonical stored form)
@@ -817,6 +817,7 @@ def search_filters(ck: Ck) -> None:
 
 
 # ================================================================================================ container
+GEN_F = '(cfmts_of_sites gen_version gen_header gen_depth gen_res_count gen_entry_inline (fst gen_block_len_r))'
 _SITES = ['version', 'header', 'depth', 'res_count', 'entry_inline', 'sheet_head', 'sheet_seq', 'sheet_dur', 'sheet_tex']
 CONT_OBS = {f'site_{n}_same_format_and_field_order_on_both_sides': f'site_ok gen_{n}' for n in _SITES}
 CONT_OBS.update({
@@ -855,13 +856,17 @@ CONT_OBS.update({
     'sheet_reader_takes_the_four_coordinates_at_0_16_32_48':
         'strs_eqb gen_sheet_tex_offs ("offset" :: "offset" :: "offset + 16" :: "offset + 32" :: "offset + 48" :: nil)%string',
     'sheet_writer_emits_coordinates_a_b_c_d_in_order': 'strs_eqb gen_sheet_tex_written ("tex_a" :: "tex_b" :: "tex_c" :: "tex_d" :: nil)%string',
+    # premises of the whole-file theorems (c15_whole_file_*) for the GENERATED formats and flag expressions
+    'container_formats_are_well_formed_and_the_block_length_is_4_bytes': f'fmts_wf {GEN_F}',
+    'container_formats_are_those_of_the_documented_layout': f'cfmts_eqb {GEN_F} std_fmts',
+    'example_file_7_4_with_inline_and_data_resources_and_sheet_is_decoded_as_encoded': f'(vfile_fits {GEN_F} gen_flagcfg (ex_file 4) && ex_roundtrip_ok {GEN_F} gen_flagcfg 4)%bool',
+    'example_files_7_3_and_7_2_are_decoded_as_encoded': f'(ex_roundtrip_ok {GEN_F} gen_flagcfg 3 && vfile_fits_old {GEN_F} (ex_file 2) && ex_roundtrip_ok {GEN_F} gen_flagcfg 2)%bool',
     'sheet_version_tests_present_on_both_sides':
         '(existsb (String.eqb "version == 1") gen_sheet_tests && existsb (String.eqb "version == 0") gen_sheet_tests)%bool%string',
 })
 
 PRE_CONT = """Import ListNotations. Open Scope list_scope.
-Definition F : cfmts := {| f_version := fmt_of (w_fmt gen_version); f_header := fmt_of (w_fmt gen_header); f_depth := fmt_of (w_fmt gen_depth);
-  f_count := fmt_of (w_fmt gen_res_count); f_entry := fmt_of (w_fmt gen_entry_inline); f_len := fmt_of (fst gen_block_len_r) |}.
+Definition F : cfmts := """ + GEN_F + """.
 Definition SF : sfmts := {| s_head := fmt_of (w_fmt gen_sheet_head); s_seq := fmt_of (w_fmt gen_sheet_seq); s_dur := fmt_of (w_fmt gen_sheet_dur);
   s_tex := fmt_of (w_fmt gen_sheet_tex) |}.
 Definition zn (z : Z) : N := Z.to_N (z + 4294967296).
